@@ -65,6 +65,11 @@ func genPlan(t *rapid.T) plan {
 		nf := rapid.IntRange(0, 3).Draw(t, "nfaults")
 		for j := 0; j < nf; j++ {
 			f := fault{When: rapid.SampledFrom([]string{"before-produce", "before-end", "before-end"}).Draw(t, "when"), Key: rapid.SampledFrom(keys).Draw(t, "key"), Kind: rapid.SampledFrom([]string{"kill-before", "drop-response", "drop-response", "code", "code", "timeout"}).Draw(t, "fkind")}
+			if p.Brokers > 1 && rapid.IntRange(0, 5).Draw(t, "move") == 0 {
+				// the produce response is held on the wire while the partitions' leaders move and the
+				// client applies the new metadata: the acknowledgement arrives on the old connection
+				f = fault{When: "before-produce", Key: 0, Kind: "move-inflight"}
+			}
 			if f.Kind == "code" {
 				if rapid.Bool().Draw(t, "fatal") {
 					f.Code = rapid.SampledFrom(fatal).Draw(t, "code")
@@ -95,7 +100,7 @@ type outcome struct {
 func TestEndResultsTruthful(t *testing.T) {
 	rapid.Check(t, func(rt *rapid.T) {
 		p := genPlan(rt)
-		var lostAfterHandling, restarts int
+		var lostAfterHandling, restarts, movedInflight int
 		bubble.Run(t, rt, func(e *bubble.Env) {
 			var extra []kfake.Opt
 			if p.Old {
@@ -216,8 +221,20 @@ func TestEndResultsTruthful(t *testing.T) {
 					}
 				}
 			}
+			var curParts []int32
 			inject := func(f fault) {
 				switch f.Kind {
+				case "move-inflight":
+					movedInflight++
+					e.Net.AddRuleNext(0, bubble.DelayResponse, time.Second)
+					parts, c := curParts, cl
+					e.Go(func() {
+						time.Sleep(200 * time.Millisecond)
+						for _, pt := range parts {
+							e.Cluster.MoveTopicPartition("x", pt, (e.Cluster.LeaderFor("x", pt)+1)%int32(p.Brokers))
+						}
+						c.ForceMetadataRefresh()
+					})
 				case "kill-before":
 					e.Net.AddRuleNext(f.Key, bubble.KillBefore, 0)
 				case "drop-response":
@@ -262,6 +279,7 @@ func TestEndResultsTruthful(t *testing.T) {
 						continue
 					}
 				}
+				curParts = x.Parts
 				for _, f := range x.Faults {
 					if f.When == "before-produce" {
 						inject(f)
@@ -378,6 +396,9 @@ func TestEndResultsTruthful(t *testing.T) {
 		ev.Case(fmt.Sprintf("%+v", p), lostAfterHandling > 0)
 		if lostAfterHandling > 0 {
 			ev.Class("response-lost-after-handling")
+		}
+		if movedInflight > 0 {
+			ev.Class("leader-moved-while-produce-response-in-flight")
 		}
 		if restarts > 0 {
 			ev.Class("client-restarted-with-same-transactional-id")
